@@ -193,12 +193,25 @@ Lemma lang_prefix_closed g w1 w2 : lang g (w1 ++ w2) -> lang g w1.
 Proof. intros (e & E & q & R). exists e. split; [exact E|]. eapply run_prefix. exact R. Qed.
 
 (* ------------------------------------------------------------------ the checker *)
-(* follow silent moves; None = a silent cycle longer than the fuel (the checker then answers false) *)
+(* follow silent moves; None = a silent chain longer than the fuel (a silent cycle: see div_ok) *)
 Fixpoint settle (g : cfg) (fuel : nat) (p : pos) : option pos :=
   match fuel with
   | O => None
   | S f => match kind_of g p with KSilent t => settle g f (t, O) | _ => Some p end
   end.
+
+(* certified silent divergence: the silent chain from p, cut at the fuel, is closed under the silent move -- every
+   position on it moves silently to a position on it -- so nothing is ever read from p *)
+Fixpoint chain (g : cfg) (fuel : nat) (p : pos) : list pos :=
+  match fuel with
+  | O => []
+  | S f => match kind_of g p with KSilent t => p :: chain g f (t, O) | _ => [] end
+  end.
+Definition memP (C : list pos) (p : pos) : bool := existsb (pos_eqb p) C.
+Definition closed_chain (g : cfg) (C : list pos) : bool :=
+  forallb (fun p => match kind_of g p with KSilent t => memP C (t, O) | _ => false end) C.
+Definition div_ok (g : cfg) (fuel : nat) (p : pos) : bool :=
+  let C := chain g fuel p in memP C p && closed_chain g C.
 
 Definition ppair := (pos * pos)%type.
 Definition ppair_eqb (a b : ppair) : bool := pos_eqb (fst a) (fst b) && pos_eqb (snd a) (snd b).
@@ -225,6 +238,7 @@ Section Check.
         | KBranch l1, KBranch l2 => sim_edges R false l1 l2 && sim_edges R true l2 l1
         | _, _ => false
         end
+    | None, None => div_ok g1 n1 (fst pq) && div_ok g2 n2 (snd pq)     (* both diverge silently *)
     | _, _ => false
     end.
   Definition is_bisim (R : list ppair) : bool := forallb (pair_ok R) R.
@@ -314,6 +328,22 @@ Proof.
   - exists p'. split; assumption.
 Qed.
 
+Lemma memP_In C p : memP C p = true -> In p C.
+Proof. unfold memP. intros H. apply existsb_exists in H as (q & Iq & E). apply pos_eqb_eq in E. subst q. exact Iq. Qed.
+
+Lemma closed_silent g C : closed_chain g C = true -> forall p w q, In p C -> run g p w q -> w = [].
+Proof.
+  intros CC p w q I R. induction R as [p|p t w q K H IH|p x p' w q V H IH].
+  - reflexivity.
+  - apply IH. unfold closed_chain in CC. rewrite forallb_forall in CC. specialize (CC _ I). rewrite K in CC. apply memP_In. exact CC.
+  - exfalso. unfold closed_chain in CC. rewrite forallb_forall in CC. specialize (CC _ I).
+    inversion V as [x0 q0 K|l c t K Il]; subst; rewrite K in CC; discriminate.
+Qed.
+Lemma div_sound g n p w q : div_ok g n p = true -> run g p w q -> w = [].
+Proof.
+  unfold div_ok. intros H R. apply andb_prop in H as [M C]. eapply closed_silent; [exact C | apply memP_In; exact M | exact R].
+Qed.
+
 Section Sound.
   Variables (g1 g2 : cfg) (n1 n2 : nat) (R : list ppair).
   Hypothesis HB : is_bisim g1 g2 n1 n2 R = true.
@@ -336,8 +366,8 @@ Section Sound.
     induction w as [|x w IH]; intros p1 p2 r I Rn.
     - exists p2. constructor.
     - pose proof (pair_ok_of _ I) as OK. unfold pair_ok in OK. cbn [fst snd] in OK.
-      destruct (settle g1 n1 p1) as [q1|] eqn:S1; [|discriminate].
-      destruct (settle g2 n2 p2) as [q2|] eqn:S2; [|discriminate].
+      destruct (settle g1 n1 p1) as [q1|] eqn:S1; destruct (settle g2 n2 p2) as [q2|] eqn:S2; try discriminate;
+        [|apply andb_prop in OK as [OK1 _]; discriminate (div_sound _ _ _ _ _ OK1 Rn)].
       destruct (settle_run_inv _ _ _ _ _ _ S1 Rn) as [r1 Rq].
       apply run_cons_inv in Rq; [|intros t; eapply settle_not_silent; exact S1].
       destruct Rq as (p' & V & Rt).
@@ -362,8 +392,8 @@ Section Sound.
     induction w as [|x w IH]; intros p1 p2 r I Rn.
     - exists p1. constructor.
     - pose proof (pair_ok_of _ I) as OK. unfold pair_ok in OK. cbn [fst snd] in OK.
-      destruct (settle g1 n1 p1) as [q1|] eqn:S1; [|discriminate].
-      destruct (settle g2 n2 p2) as [q2|] eqn:S2; [|discriminate].
+      destruct (settle g1 n1 p1) as [q1|] eqn:S1; destruct (settle g2 n2 p2) as [q2|] eqn:S2; try discriminate;
+        [|apply andb_prop in OK as [_ OK2]; discriminate (div_sound _ _ _ _ _ OK2 Rn)].
       destruct (settle_run_inv _ _ _ _ _ _ S2 Rn) as [r1 Rq].
       apply run_cons_inv in Rq; [|intros t; eapply settle_not_silent; exact S2].
       destruct Rq as (p' & V & Rt).
@@ -583,8 +613,7 @@ Section ExecSound.
     induction n as [|n IH]; intros p1 p2 s I; [reflexivity|].
     pose proof (pair_ok_of _ _ _ _ _ HB _ I) as OK. unfold pair_ok in OK. cbn [fst snd] in OK.
     cbn [pexec].
-    destruct (settle g1 n1 p1) as [q1|] eqn:S1; [|discriminate].
-    destruct (settle g2 n2 p2) as [q2|] eqn:S2; [|discriminate].
+    destruct (settle g1 n1 p1) as [q1|] eqn:S1; destruct (settle g2 n2 p2) as [q2|] eqn:S2; try discriminate; [|reflexivity].
     destruct (kind_of g1 q1) as [x1 r1|t1|l1] eqn:K1; [| discriminate |];
       destruct (kind_of g2 q2) as [x2 r2|t2|l2] eqn:K2; try discriminate.
     - apply andb_prop in OK as [E M]. apply item_eqb_eq in E. subst x2. apply memR_In in M.
